@@ -2,7 +2,7 @@
 From Coq Require Import List Arith.
 From EN Require Import Lib.Bytes Frame.Framer Frame.ReadUntil Frame.BufReadUntil Stream.Consumer Stream.SpecDecode
   Frame.JsonRaw Frame.JsonGrammar Proofs.C07_extra Proofs.C01_generic Proofs.C01_json Proofs.C02_extra
-  Proofs.C02_proofs Proofs.Fixed_proofs Proofs.BufFixed_proofs.
+  Frame.Convert Proofs.Convert_proofs Proofs.BufConvert_proofs Proofs.C02_proofs Proofs.Fixed_proofs Proofs.BufFixed_proofs.
 Import ListNotations.
 
 (* For every byte stream whose frames are safely within the limit (payload + separator < limit, the band in which
@@ -22,6 +22,35 @@ Proof.
   exact (paths_agree_l sep keep_end dec Hne limit sizehint s cs1 cs2 fuel Hl Hs H1 H2 H3 Hf).
 Qed.
 Print Assumptions events_chunk_independent.
+
+(* Protocols with a converter (StreamProtocol / BufferedStreamProtocol (serializer, converter)): same statement; the events
+   are those of frame-by-frame decoding with every decoded DTO passed through create_from_dto_packet — a DTO the converter
+   rejects (PacketConversionError) yields exactly one parse error in its place ([conv_ev]), consumes exactly its frame, and
+   every other frame is delivered intact, on both receive paths, whatever the chunking. *)
+Theorem events_chunk_independent_with_converter :
+  forall (Q P : Type) (sep : bytes) (keep_end : bool) (dec : decoder Q) (from_dto : Q -> option P) (limit sizehint : nat),
+    sep <> [] -> length sep + 1 <= limit ->
+    forall (s : bytes) (cs1 cs2 : list bytes) (fuel : nat),
+      safe sep (limit - 1 - length sep) s ->
+      Forall (fun ch => ch <> []) cs1 -> concat cs1 = s -> concat cs2 = s -> length s < fuel ->
+      snd (cdeliver (conv_framer from_dto (ru_framer sep limit keep_end dec)) fuel (cinit _) cs1)
+        = map (conv_ev from_dto) (fst (spec_events sep keep_end dec s)) /\
+      snd (bcdeliver (conv_bframer from_dto (bru_framer sep limit keep_end dec)) sizehint fuel (bcinit _) cs2)
+        = map (conv_ev from_dto) (fst (spec_events sep keep_end dec s)).
+Proof.
+  intros Q P sep keep_end dec from_dto limit sizehint Hne Hl s cs1 cs2 fuel Hs H1 H2 H3 Hf.
+  destruct (paths_agree_l sep keep_end dec Hne limit sizehint s cs1 cs2 fuel Hl Hs H1 H2 H3 Hf) as (c1 & c2 & Hd1 & Hd2).
+  split.
+  - pose proof (cdeliver_conv from_dto (ru_framer sep limit keep_end dec) fuel cs1 (cinit _)) as H.
+    change (conv_st from_dto (ru_framer sep limit keep_end dec) (cinit (ru_framer sep limit keep_end dec)))
+      with (cinit (conv_framer from_dto (ru_framer sep limit keep_end dec))) in H.
+    rewrite H, Hd1. reflexivity.
+  - pose proof (bcdeliver_conv from_dto (bru_framer sep limit keep_end dec) sizehint fuel cs2 (bcinit _)) as H.
+    change (bconv_st from_dto (bru_framer sep limit keep_end dec) (bcinit (bru_framer sep limit keep_end dec)))
+      with (bcinit (conv_bframer from_dto (bru_framer sep limit keep_end dec))) in H.
+    rewrite H, Hd2. reflexivity.
+Qed.
+Print Assumptions events_chunk_independent_with_converter.
 
 (* Fixed-size framing (FixedSizePacketSerializer, struct serializers): ANY byte stream (no size band: records cannot be
    oversized), any chunking on the copying path, any sequence of fitting recv_into fills and any size hint on the
